@@ -528,6 +528,18 @@ def directed_cases():
             out.append({"suite": "world", "types": [], "n": -1, "ops": [
                 {"op": "define", "c": 0, "src": base_}, {"op": "define", "c": 1, "src": gold_},
                 {"op": "define", "c": 2, "src": own_}] + [{"op": k, "c": c_, "probe": pr} for k, c_, pr in hist]})
+    # region: two DISTINCT nested classes with the same bare name, each referenced (directly / as Array item) by its own
+    # outer class; the outer classes are exported into one shared definitions accumulator (fingerprint, third phase)
+    addr0 = cls("Address", [fld("street", {"prim": 2}), fld("zip_code", {"prim": 0})])
+    addr1 = cls("Address", [fld("host", {"prim": 2}), fld("port", {"prim": 1}, default=True)])
+    for arr0 in (False, True):
+        for arr1 in (False, True):
+            for use in ([], [("toSchema", 2)], [("toSchema", 3), ("toSchema", 2)]):
+                out.append({"suite": "world", "types": [], "n": -1, "ops": [
+                    {"op": "define", "c": 0, "src": addr0}, {"op": "define", "c": 1, "src": addr1},
+                    {"op": "define", "c": 2, "src": cls("Invoice", [fld("billing", {"ref": 0, "arr": arr0}), fld("id", {"prim": 0})])},
+                    {"op": "define", "c": 3, "src": cls("Endpoint", [fld("address", {"ref": 1, "arr": arr1}), fld("name", {"prim": 2})])}] + [
+                    {"op": k, "c": c_, "probe": "valid"} for k, c_ in use]})
     # region: AnyOf fields whose options overlap and normalise differently, inherited / re-used by a derived
     # class; the derived class is used with a value only the later option accepts, then the base class is used
     for tag in (27, 28, 29):
